@@ -201,6 +201,10 @@ def offcurve_cases(cv, rng, count, op="ep2_on_curve", systems=(BASIC, PROJC, JAC
             xs[rng.randrange(4)] = 0
         s = rng.choice(list(systems))
         cases.append("%s %s 0 xy%x,%x,%x,%x%s" % (op, cv.spec, xs[0], xs[1], xs[2], xs[3], rep_suffix(cv, s, rng)))
+    # degenerate coordinates: y = 0 (formulas that double or negate collapse to the identity there), x = 0, both, tiny values
+    for (x0, x1, y0, y1) in [(0, 0, 0, 0), (1, 0, 0, 0), (2, 3, 0, 0), (0, 7, 0, 0), (0, 0, 1, 0), (0, 0, 0, 1), (1, 0, 1, 0),
+                             (rng.randrange(cv.p), rng.randrange(cv.p), 0, 0)]:
+        cases.append("%s %s 0 xy%x,%x,%x,%x" % (op, cv.spec, x0, x1, y0, y1))
     return cases
 
 
